@@ -1997,11 +1997,11 @@ async fn run(args: Args) {
     let mut log = Log::create(std::path::Path::new(&out)).unwrap();
     let mut st = Stats::default();
     let mut rng = Rng::new(seed);
+    let tcp = args.u64("tcp", 0) == 1;
+    TCP.store(tcp, std::sync::atomic::Ordering::Relaxed);
     for f in args.str("replay-ops", "").split(',').filter(|f| !f.is_empty()) {
         replay_ops(&mut log, &mut st, f).await;
     }
-    let tcp = args.u64("tcp", 0) == 1;
-    TCP.store(tcp, std::sync::atomic::Ordering::Relaxed);
     let wire_cases = args.u64("wire-cases", 0);
     if tcp && wire_cases == 0 && args.u64("only-replay", 0) != 1 {
         // only the end-to-end engine has a transport
